@@ -116,9 +116,12 @@ func (sm *ShardManager) cleanupRoutine(ls *loadedShard, backupFrequency, backupC
 			}
 		case <-timer.C:
 			sm.logger.Debug().Str("shardDir", shardDir).Msg("Unloading shard")
+			// We commit to exiting the cleanup goroutine here. The shard lock is
+			// released before the store lock is taken: collection deletion takes
+			// the two in the opposite order, holding both here can deadlock.
 			ls.mu.Lock()
-			defer ls.mu.Unlock() // we commit to exiting the cleanup goroutine here
 			if ls.shard == nil {
+				ls.mu.Unlock()
 				sm.logger.Debug().Str("shardDir", shardDir).Msg("Shard already unloaded")
 				return
 			}
@@ -145,8 +148,13 @@ func (sm *ShardManager) cleanupRoutine(ls *loadedShard, backupFrequency, backupC
 			// is closed in case they are waiting on the lock
 			sm.logger.Debug().Str("shardDir", shardDir).Msg("Removing loaded shard")
 			ls.shard = nil
+			ls.mu.Unlock()
 			sm.shardLock.Lock()
-			delete(sm.shardStore, shardDir)
+			// Only remove our own entry, the shard may have been deleted and
+			// loaded again in the meantime.
+			if sm.shardStore[shardDir] == ls {
+				delete(sm.shardStore, shardDir)
+			}
 			sm.shardLock.Unlock()
 			// ---------------------------
 			return
